@@ -1,0 +1,11 @@
+//go:build verif
+
+// Contracts for the gowp verifier (/verif): comment-only file, compiled only with -tags verif.
+package config
+
+//@ func config.randServOrder(ks0) (kdcs)
+//@   pure
+//@   requires len(ks0) >= 1
+//@   ensures kdcs != nil
+//@   loop 1 invariant (l == len(ks) || l == 0) && l >= 0 && fresh(ks) && ref(ks) != 0
+//@   loop 1 decreases l
